@@ -400,3 +400,54 @@ Definition Inv (nslots : nat) (w : world) : Prop :=
   (forall l, In l (w_slots w) -> l < length (w_heap w)) /\
   (forall l, In l (w_known w) -> l < length (w_heap w) /\ ~ In l (w_slots w)).
 End Hist.
+
+(* ---------- per-call facts compared with the implementation (harness/c19.py) ---------- *)
+(* locations written in place by the call, in order *)
+Definition writes_of (F : nat -> list (list Z) -> list Z) (p : prog) (args : list loc) (s0 : st) : list loc :=
+  snd (fold_left (fun (acc : st * list loc) i =>
+                    let '(s, ws) := acc in
+                    (step F args s i,
+                     match i with
+                     | IWrite d _ _ => match lookup args s d with Some l => ws ++ [l] | None => ws end
+                     | _ => ws
+                     end)) p (s0, [])).
+
+Record facts := mk_facts {
+  f_ret_slot : list (list bool);    (* returned object j is the object held by live slot k after the call *)
+  f_ret_arg : list (list bool);     (* returned object j is argument i *)
+  f_ret_inner : list (list bool);   (* returned object j is the inner venv's result component c (tmps 10..13) *)
+  f_slot_rebound : list bool;       (* live slot k refers to another object after the call *)
+  f_slot_inner : list (list bool);  (* live slot k holds inner result component c after the call *)
+  f_slot_arg : list (list bool);    (* live slot k holds argument i after the call *)
+  f_slot_written : list bool;       (* the object slot k referred to BEFORE the call was written in place *)
+  f_inner_written : list bool       (* inner result component c was written in place *)
+}.
+
+Definition call_facts (p : prog) (nargs nslots ndead : nat) : facts :=
+  let h0 := repeat [0%Z] (nargs + nslots + ndead) in
+  let args := seq 0 nargs in
+  let slots0 := seq nargs nslots in
+  let dead0 := seq (nargs + nslots) ndead in
+  let s0 := mk_st h0 slots0 dead0 [] [] in
+  let s := run F0 p args h0 slots0 dead0 in
+  let ws := writes_of F0 p args s0 in
+  let inner := map (fun r => assoc r (s_tmps s)) [10; 11; 12; 13] in
+  let is_inner (l : loc) (o : option loc) := match o with Some l' => Nat.eqb l l' | None => false end in
+  mk_facts
+    (map (fun r => map (Nat.eqb r) (s_slots s)) (s_rets s))
+    (map (fun r => map (Nat.eqb r) args) (s_rets s))
+    (map (fun r => map (is_inner r) inner) (s_rets s))
+    (map (fun kv => negb (Nat.eqb (fst kv) (snd kv))) (combine slots0 (s_slots s)))
+    (map (fun l => map (is_inner l) inner) (s_slots s))
+    (map (fun l => map (Nat.eqb l) args) (s_slots s))
+    (map (fun l => existsb (Nat.eqb l) ws) slots0)
+    (map (fun o => match o with Some l => existsb (Nat.eqb l) ws | None => false end) inner).
+
+(* Dict observations through VecTransposeImage are deep-copied before the image keys are transposed *)
+Definition transpose_dict_reset : prog := inner_reset ++ [ INew 0 20 [RTmp 10]; IRet (RTmp 0) ].
+Definition transpose_dict_step : prog :=
+  inner_step ++ [ INew 2 20 [RTmp 13]; IWrite (RTmp 13) 12 [RTmp 2]; INew 0 20 [RTmp 10];
+                  IRet (RTmp 0); IRet (RTmp 11); IRet (RTmp 12); IRet (RTmp 13) ].
+
+Definition more_components_disciplined : bool :=
+  disciplined 0 0 transpose_dict_reset && disciplined 1 0 transpose_dict_step.
